@@ -10,7 +10,15 @@
     parameters, the state row, the input rows and the previous output rows;
     [None] = panic).  [cell_result m i] is [K] applied to cell [i]'s own data in
     [m]: parameters of set [i mod nSets] (tables decoded with the cell's own
-    extents), state row [i], input block [i mod nIn], output rows of cell [i]. *)
+    extents), state row [i], input block [i mod nIn], output rows of cell [i].
+
+    Array extents are part of the caller-visible state too: in the model the
+    shapes ([shapes]: dI, dS, dO, dP) are immutable values passed to [run] — the
+    theorems below say "inputs and parameters unchanged" about the stores; that
+    the Go Run also leaves every array DESCRIPTOR (Shape / NDims / Len per axis,
+    which [Shape()] hands out as a live slice) unchanged, and that a second Run
+    on the same objects reproduces the first, is checked on the real code by
+    the harness (tools/c04.py, harness/cmd/cellrun) for every case. *)
 From Coq Require Import List Arith ZArith Permutation.
 From OW Require Import Base.Interleave Wrapper.Spec Wrapper.Run Wrapper.Views Wrapper.CellFacts
   Wrapper.RunProofs Wrapper.ParamBounds Wrapper.FindDims Wrapper.InitProofs Wrapper.Examples Gen.WrapperSpecs.
